@@ -71,6 +71,27 @@ def c03_sweep(ctx, n):
         if not ok_place:
             fails.append({"key": f"placement:{cls}", "desc": f"get{field} along a path is not the local field placed with that step's position and orientation",
                           "replay": {"class": cls, "field": field, "path_length": len(src._position), "n_observers": len(obs)}})
+        # the same with a Sensor as observer (its own path of orientations: rotating, mirrored, almost static): moving source and
+        # sensor by one rigid motion leaves the sensor's readings unchanged
+        if i % 2 == 0:
+            ms = rng.choice([2, 3])
+            skind = rng.choice(["rotating", "mirrored", "wobble"])
+            if skind == "rotating":
+                sori = R.random(ms, rng=nps)
+            elif skind == "wobble":
+                sori = wobble(rng, nps, ms)
+            else:
+                a_, ax_ = nps.uniform(0.2, 1.2), np.eye(3)[rng.randrange(3)]
+                sori = R.from_rotvec([ax_ * a_ * (-1) ** j for j in range(ms)])
+            sens = magpy.Sensor(position=far_points(nps, ms, lo=4, hi=9), orientation=sori, pixel=nps.uniform(-0.3, 0.3, (2, 3)))
+            r0 = getf(src, sens, squeeze=False)
+            sens2 = sens.copy()
+            sens2.rotate(Q, anchor=0).move(t)
+            r1 = getf(moved, sens2, squeeze=False)
+            per["sensor:" + skind] = per.get("sensor:" + skind, 0) + 1
+            if r0.shape != r1.shape or not _close(r1, r0, float(np.max(np.abs(r0))) + 1e-300, 1e-7):
+                fails.append({"key": f"covariance:sensor:{skind}", "desc": f"get{field} seen by a Sensor changes when source and sensor are moved by one rigid motion (sensor orientation path: {skind})",
+                              "replay": {"class": cls, "field": field, "sensor_quats": sori.as_quat().tolist(), "quat": Q.as_quat().tolist(), "t": t.tolist()}})
     # nested compounds moved as a whole through the collection API (rotate about own centre / anchor, then move)
     for i in range(max(6, n // 6)):
         nps = np.random.default_rng(rng.randrange(2**31))
